@@ -41,6 +41,7 @@ func run(c *vf.Ctx) {
 	v1Authenticate(c)
 	v2Direct(c)
 	v2Authenticate(c)
+	histories(c)
 }
 
 // ------------------------------------------------------------------ sharded tally (keeps the Ctx mutex out of hot loops)
